@@ -6,7 +6,7 @@ import obl_kani
 def run(c):
     import clauses
     c.only_clauses = clauses.OWN["C16"]
-    obl_kani.run(c, ["k_english_mask", "k_suggestion_full_accessors", "k_suggestion_single_accessors"])
+    obl_kani.run(c, ["k_english_mask", "k_suggestion_full_accessors", "k_suggestion_selection_moved", "k_suggestion_single_accessors"])
     A.validate_assembly_concrete(c)     # a mismatch makes the run inconclusive; the obligations still run, and what they find is reported only after native confirmation
     ct = A.conv_table_for([])
     A.obl_emoji(c, ct, thorough=(c.tier == "thorough"), budget_s=1200)      # phonetic: emoticon / emoji name / English under symbolic ANSI
